@@ -19,7 +19,7 @@ RULE  = ("one case = (experiment spec: env groups incl. shared chunk()/cache() p
 PLAN  = {"quick":    {"shards": 8, "parallel": 4, "cases": 24,   "timeout": 1500},
          "thorough": {"shards": 8, "parallel": 4, "cases": 480,  "timeout": 7000}}
 REQUIRED = ["oracle.rebuild-same", "oracle.inproc-chunked-same", "oracle.multiproc-same", "observed.multiproc-evaluations",
-            "observed.runs-with-2+-worker-pids", "observed.arrival-orders"]
+            "observed.runs-with-2+-worker-pids", "observed.arrival-orders", "oracle.multiproc-after-earlier-run"]
 ASSUMPTIONS = ["only deterministic picklable components; timing columns excluded", "processes <= 6",
                "seed=None (time seeded) filters are not generated"]
 
@@ -74,7 +74,10 @@ def check_case(case, ctx=None, workdir=None):
                 continue
             side = os.path.join(workdir, "side.log")
             if os.path.exists(side): os.remove(side)
-            out = X.run_subprocess(spec, cfg, workdir, side=side)
+            # the last configuration of a case runs after another multi-process run (other seed) in the same interpreter
+            pre = [{"spec": dict(spec, seed=spec["seed"] + 100), "cfg": cfg}] if cfg is case["cfgs"][-1] else None
+            if pre: note("oracle.multiproc-after-earlier-run")
+            out = X.run_subprocess(spec, cfg, workdir, side=side, pre=pre)
             if out["status"] != "ok":
                 if out["status"] == "raised":
                     viol.append((f"multiproc/raised/{feat}", f"cfg={cfg}: {out['error']}"))
